@@ -112,7 +112,7 @@ impl X509Certificate {
 		let now = Asn1Time::days_from_now(0)?;
 		let not_after = self.inner_cert.not_after();
 		let diff = now.diff(not_after)?;
-		let nb_secs = diff.days * 24 * 60 * 60 + diff.secs;
+		let nb_secs = i64::from(diff.days) * 24 * 60 * 60 + i64::from(diff.secs);
 		let nb_secs = if nb_secs > 0 { nb_secs as u64 } else { 0 };
 		Ok(Duration::from_secs(nb_secs))
 	}
